@@ -7,6 +7,7 @@ CONSTANTS
   Faults = {}
   MaxFaults = 0
   Pickle = "ascoded"
+  Variant = "ascoded"
   MaxLen = 1
   MaxBatch = 2
 SPECIFICATION MCSpec
